@@ -318,6 +318,18 @@ def space(tier):
         return {"ops": ops, "cuts": [], "gap0": False}
     sp.add("many_packets_one_segment", 12 if tier == "quick" else 200, many)
 
+    nsizes = 1100 if tier == "quick" else 3000
+
+    def sizes(j, rng):
+        # every packet size once (the two size bytes take every value of their range), between two neighbours
+        n = j % nsizes
+        ops = [{"op": "packet", "payload": _payload(rng, rng.choice([0, 3, 110]), "plain").hex()},
+               {"op": "packet", "payload": _payload(rng, n, "plain").hex()},
+               {"op": "packet", "payload": _payload(rng, rng.choice([0, 64]), "plain").hex()}]
+        s, _ = build_stream(ops)
+        return {"ops": ops, "cuts": sorted({rng.randrange(1, len(s)) for _ in range(rng.choice([0, 1, 2]))}), "gap0": False}
+    sp.add("every_packet_size", nsizes, sizes, exhaustive=True)
+
     def lan(j, rng):
         return {"mode": "lan", "config": {"version": 3, "key": rand_bytes(rng, 32).hex(), "token": rand_bytes(rng, 64).hex()},
                 "reply": rand_bytes(rng, rng.randint(1, 60)).hex(),
